@@ -29,6 +29,7 @@ OPNAME = ["", "push", "pop", "set", "setroot", "get", "has", "del", "use_or_assi
 EXCNAME = ["", "AttributeError", "LookupError", "KeyError", "CleanupBoom", "SetupBoom", "AssertionError",
            "ValueError", "TypeError", "other"]
 MISSING = object()
+VALUES = [1, 1, 2, 2, 3, 6, 6, 7, 8, 9]      # value codes of the random histories: 1 2 False None 0 '' []
 
 # every part is one exhaustive TLC run of Context_MC; alphabet and operation budget per prelude depth are in the cfg:
 #   *_quick/_thorough      attribute alphabet (2 names + `failed`, 2 values)          len 2,2,3,2 / 3,3,3,3
@@ -38,14 +39,18 @@ MISSING = object()
 #   *_reduced              1 name, 2 values: push pop set setroot del                 len 5 / 6 from the testrun scope
 #   *_exec                 nested execute_steps: depth 2/3, every none/text/table shape per level, innermost ok/fails
 #   *_two                  two Contexts in one process: cleanups/attributes of the first must not reach the second
+#   *_values               set / use_or_* with the values 1 False None 0 '' [] and on the pre-defined text/table (None)
+#   *_layers               equal layer names: scenario inside scenario, unnamed inside unnamed (push pop set del [cleanups])
 #   *_thorough_sim         complete alphabet incl. get/has, -simulate, 50 operations
 # get/has are not separate operations in the exhaustive parts: the probe after EVERY operation does both for all names
 PARTS = {
     "quick": ["Context_MC_quick.cfg", "Context_MC_quick_cleanups.cfg", "Context_MC_quick_reduced.cfg",
-              "Context_MC_quick_exec.cfg", "Context_MC_quick_two.cfg"],
+              "Context_MC_quick_exec.cfg", "Context_MC_quick_two.cfg", "Context_MC_quick_values.cfg",
+              "Context_MC_quick_layers.cfg"],
     "thorough": ["Context_MC_thorough.cfg", "Context_MC_thorough_attrs4.cfg", "Context_MC_thorough_cleanups.cfg",
                  "Context_MC_thorough_cleanups4.cfg", "Context_MC_thorough_reduced.cfg",
-                 "Context_MC_thorough_exec.cfg", "Context_MC_thorough_two.cfg"],
+                 "Context_MC_thorough_exec.cfg", "Context_MC_thorough_two.cfg", "Context_MC_thorough_values.cfg",
+                 "Context_MC_thorough_layers.cfg"],
 }
 SIM_CFG = "Context_MC_thorough_sim.cfg"
 
@@ -225,16 +230,26 @@ def replay_history(world, ops):
             return 6
         if type(v) is int and v in (1, 2):
             return v
+        if type(v) is int and v == 0:
+            return 7
+        if type(v) is list and not v:
+            return 9
         if isinstance(v, Table):
             d = nest_digit(v, True)
             return 5 if d == 9 else 19 + d
         if isinstance(v, type(u"")):
+            if v == u"":
+                return 8
             if v == u"CALLER":
                 return 4
             d = nest_digit(v, False)
             if d != 9:
                 return 9 + d
         return 99
+
+    def value(y):
+        """value code -> the Python object that is assigned (falsy values included)"""
+        return {3: False, 6: None, 7: 0, 8: u"", 9: []}.get(y, y)
 
     out = []
     with warnings.catch_warnings(record=True) as caught:
@@ -248,12 +263,17 @@ def replay_history(world, ops):
             w0 = len(caught)
             try:
                 if c == 1:
-                    if x in (0, 4):
+                    # scenario and unnamed layers: behave.runner.scoped_context_layer, or (inside a layer that was
+                    # pushed that way, at odd positions) Context._push, so that equal names nest in both ways
+                    if x in (0, 4) and not (pushed and pushed[-1] is not None and seq % 2):
                         cm = scoped_context_layer(ctx, LAYERS[x]) if x else scoped_context_layer(ctx)
                         cm.__enter__()
                         pushed.append(cm)
-                    else:
+                    elif x:
                         ctx._push(layer=LAYERS[x])
+                        pushed.append(None)
+                    else:
+                        ctx._push()
                         pushed.append(None)
                 elif c == 2:
                     cm = pushed.pop() if pushed else None
@@ -262,9 +282,9 @@ def replay_history(world, ops):
                     else:
                         cm.__exit__(None, None, None)
                 elif c == 3:
-                    setattr(ctx, POOL[x - 1], y)
+                    setattr(ctx, POOL[x - 1], value(y))
                 elif c == 4:
-                    ctx._set_root_attribute(POOL[x - 1], y)
+                    ctx._set_root_attribute(POOL[x - 1], value(y))
                 elif c == 5:
                     ret = code(getattr(ctx, POOL[x - 1]))
                 elif c == 6:
@@ -272,9 +292,9 @@ def replay_history(world, ops):
                 elif c == 7:
                     delattr(ctx, POOL[x - 1])
                 elif c == 8:
-                    ret = code(ctx.use_or_assign_param(POOL[x - 1], y))
+                    ret = code(ctx.use_or_assign_param(POOL[x - 1], value(y)))
                 elif c == 9:
-                    ret = code(ctx.use_or_create_param(POOL[x - 1], lambda v: v, y))
+                    ret = code(ctx.use_or_create_param(POOL[x - 1], lambda v: v, value(y)))
                 elif c == 10:
                     fn = cleanup_func(x, y % 2)
                     kw = {}
@@ -364,7 +384,7 @@ def pretty(ops, upto=None):
         if c == 1:
             parts.append("push(%s)" % (LAYERS[x] or "unnamed"))
         elif c in (3, 4, 8, 9):
-            parts.append("%s(%s,%d)" % (OPNAME[c], POOL[x - 1], y))
+            parts.append("%s(%s,%s)" % (OPNAME[c], POOL[x - 1], {3: "False", 6: "None", 7: "0", 8: "''", 9: "[]"}.get(y, y)))
         elif c in (5, 6, 7):
             parts.append("%s(%s)" % (OPNAME[c], POOL[x - 1]))
         elif c == 10:
@@ -403,7 +423,7 @@ def random_history(rnd, length):
         r = rnd.random()
         top = layers[-1]
         if r < 0.12:
-            nxt = {1: [2], 2: [3, 4], 3: [4], 4: [0], 0: []}[top]
+            nxt = {1: [2], 2: [3, 4], 3: [4], 4: [0, 0, 4], 0: [0] if len(layers) < 7 else []}[top]
             if not nxt:
                 continue
             l = rnd.choice(nxt)
@@ -416,16 +436,16 @@ def random_history(rnd, length):
             ops.append([2, 0, 0, 0])
         elif r < 0.40:
             n = rnd.choice([1, 1, 2, 2, 3])
-            ops.append([3, n, 1 if n == 3 else rnd.choice([1, 2]), 0])
+            ops.append([3, n, 1 if n == 3 else rnd.choice(VALUES), 0])
         elif r < 0.46:
             n = rnd.choice([1, 2, 3])
-            ops.append([4, n, 1 if n == 3 else rnd.choice([1, 2]), 0])
+            ops.append([4, n, 1 if n == 3 else rnd.choice(VALUES), 0])
         elif r < 0.50:
             ops.append([rnd.choice([5, 6]), rnd.choice([1, 2, 3, 4, 5]), 0, 0])
         elif r < 0.60:
             ops.append([7, rnd.choice([1, 1, 2, 2, 3]), 0, 0])
         elif r < 0.66:
-            ops.append([rnd.choice([8, 9]), rnd.choice([1, 2]), rnd.choice([1, 2]), 0])
+            ops.append([rnd.choice([8, 9]), rnd.choice([1, 1, 2, 2, 4, 5]), rnd.choice(VALUES), 0])
         elif r < 0.84:
             ident = rnd.randint(1, 5)
             raises = rz.setdefault(ident, 1 if rnd.random() < 0.3 else 0)
